@@ -245,6 +245,58 @@ Definition run_ac (c : pystr * pystr * bool * pystr * item_kind) : bool :=
     ctx.count("cases:access_check", len(cases))
 
 
+def gen_cross_user(rng, et):
+    """Owner-only style tables; both users populate their own collections; then everybody attacks everybody else's."""
+    pols = []
+    for ui, u in enumerate(xh.USERS):
+        t = {}
+        for p in [(), (10,), (11,), (10, 20), (10, 21), (11, 20), (11, 22), (10, 22), (10, 20, 101)]:
+            if p == ():
+                t[p] = "R" if u else ""
+            elif u and p[0] == xh.USER_NAME[u]:
+                t[p] = "RW" if len(p) == 1 else ("rw" if len(p) == 2 else "")
+            else:
+                t[p] = ""
+        pols.append((xh.USER_NAME.get(u), t))
+    cfg = (rng.random() < 0.8, rng.random() < 0.8)
+    hist = []
+    for owner, colls in ((1, [(10, 20), (10, 21)]), (2, [(11, 20), (11, 22)])):
+        for c in colls:
+            card = c[1] == 21
+            hist.append((owner, ("RMkcol", c, ("XProps", ("TRSet", "TAdr"), [])) if card else ("RMkcalendar", c, ("XNone",))))
+            for j in range(2):
+                o = (j, "CCard" if card else "CEvent", rng.randrange(3))
+                hist.append((owner, ("RPut", c + ((200 if card else 100) + j,), "CTNone", ("BCards" if card else "BCal", [o]), ("CNone",), False)))
+    own = {1: [(10, 20), (10, 21)], 2: [(11, 20), (11, 22)], 0: []}
+    # 'i' (direct GET of a whole calendar only) granted by a rule that also matches deeper paths
+    for ui, (uname, t) in enumerate(pols):
+        for u2 in (1, 2):
+            if u2 != ui and rng.random() < 0.5:
+                for c in own[u2]:
+                    t[c] = rng.choice(["i", "i", ""])
+                    for j in range(3):
+                        t[c + ((200 if c[1] == 21 else 100) + j,)] = "i"
+    for _ in range(rng.randrange(6, 16)):
+        ui = rng.choice([1, 2, 0])
+        victim = rng.choice([c for u2 in (1, 2) if u2 != ui for c in own[u2]])
+        mine = rng.choice(own[ui]) if own[ui] else victim
+        card_v = victim[1] == 21
+        vitem = victim + ((200 if card_v else 100) + rng.randrange(3),)
+        card_m = mine[1] == 21
+        mitem = mine + ((200 if card_m else 100) + rng.randrange(2),)
+        o = (rng.randrange(4), "CCard" if card_v else "CEvent", rng.randrange(3))
+        hist.append((ui, rng.choice([
+            ("RMove", mitem, True, vitem, True), ("RMove", mitem, True, victim + (103,), False), ("RMove", vitem, True, mine + (103,), True),
+            ("RPut", vitem, "CTNone", ("BCards" if card_v else "BCal", [o]), ("CNone",), False),
+            ("RPut", victim, "CTNone", ("BCards" if card_v else "BCal", [o]), ("CNone",), False),
+            ("RDelete", vitem, ("CNone",)), ("RDelete", victim, ("CNone",)), ("RDelete", victim[:1], ("CNone",)),
+            ("RProppatch", victim, ("XProps", ("TRNone",), [(1, 2)])), ("RMkcol", victim[:1] + (22,), ("XNone",)),
+            ("RMkcalendar", victim[:1] + (21,), ("XNone",)), ("RGet", vitem), ("RGet", victim), ("RPropfind", victim, True),
+            ("RPropfind", victim[:1], True), ("RMultiget", mine, not card_m, [vitem, mitem]), ("RMultiget", victim, not card_v, [vitem]),
+        ])))
+    return (cfg, pols), hist
+
+
 def run(ctx):
     ctx.rule = ("(i) handler histories as in C01 but with ~40% random permission tables (letters R r W w i d D o O in any mix) for three "
                 "users incl. anonymous; (ii) pairs of stores differing only inside subtrees dark for the probing user, same 6-20 requests; "
@@ -259,6 +311,7 @@ def run(ctx):
         write_monitor(ctx, state, world, hist, outs, runner)
     access_check_correspondence(ctx)
     x_hcheck.run_histories(ctx, ctx.n(200, 6000), monitor=monitor, tag="c03")
+    x_hcheck.run_histories(ctx, ctx.n(80, 2500), gen=gen_cross_user, monitor=monitor, tag="c03x")
     two_store_differential(ctx, ctx.n(60, 2500))
 
 
